@@ -39,7 +39,7 @@ def plan(tier):
                           Modes=('opt', 'imm', 'ser'), OpSet=WRITER + ('GFU', 'F'), LockModes=LM)),
         ]
     return [
-        dict(name='c35-locker-vs-writer', how='graph', limit=5000,
+        dict(name='c35-locker-vs-writer', how='graph', limit=3500,
              cfg=dict(NS=2, NO=1, MaxOps=2, Modes1=('opt', 'ser'), OpSet1=LOCKER, Modes=('opt', 'imm', 'ser'),
                       OpSet=WRITER, LockModes=LM)),
         dict(name='c35-coverage', how='check', coverage=True,
@@ -56,14 +56,14 @@ def plan(tier):
         dict(name='c35-2rows-replay', how='graph', limit=2500,
              cfg=dict(NS=2, NO=2, MaxOps=2, Modes1=('opt',), OpSet1=('GFU', 'W'), Modes=('opt',),
                       OpSet=('W', 'D'), LockModes=('wait',))),
-        dict(name='c35-commit-in-the-middle', how='graph', limit=3000,
+        dict(name='c35-commit-in-the-middle', how='graph', limit=2000,
              cfg=dict(NS=2, NO=1, MaxOps=4, MaxOpsN=1, Modes1=('opt', 'ser'), OpSet1=('GFU', 'CM', 'R', 'W'),
                       Modes=('opt', 'imm'), OpSet=('W', 'D'), LockModes=('wait', 'bykey'))),
         # 3 sessions: one locker, two writers queueing for the lock
-        dict(name='c35-3s', how='graph', limit=3000,
+        dict(name='c35-3s', how='graph', limit=2500,
              cfg=dict(NS=3, NO=1, MaxOps=1, Modes1=('opt', 'ser'), OpSet1=('GFU', 'QFU', 'R'), Modes=('opt', 'imm', 'ser'),
                       OpSet=('W', 'D', 'GFU'), LockModes=('wait',))),
-        dict(name='c35-3s-4ops-sim', how='simulate', num=2500, depth=26,
+        dict(name='c35-3s-4ops-sim', how='simulate', num=2000, depth=26,
              cfg=dict(NS=3, NO=2, MaxOps=4, Modes1=('opt', 'ser'), OpSet1=LOCKER + ('Q', 'X', 'CM'),
                       Modes=('opt', 'imm', 'ser'), OpSet=WRITER + ('GFU', 'QFU', 'F', 'X', 'CM'), LockModes=LM)),
     ]
